@@ -40,8 +40,18 @@ pub mod {m} {{
     #[derive(Debug, darling::{tr})]
     {attr}
     pub struct G4<T, U, V> {{ pub a: ::std::option::Option<T>, #[darling(multiple)] pub b: ::std::vec::Vec<U>, pub c: (::std::boxed::Box<V>) }}
+    // defaults on type and const parameters belong to the declaration, not to the impl header
+    #[derive(Debug, darling::{tr})]
+    {attr}
+    pub struct G5<T = u32, const N: usize = 4, const B: bool = true> {{ pub a: T, #[darling(skip)] pub p: std::marker::PhantomData<[u8; N]> }}
+    #[derive(Debug, darling::{tr})]
+    {attr}
+    pub struct G6<'a, 'b: 'a, T: 'a + ?Sized, const N: usize = 2> where T: 'b {{ #[darling(skip)] pub p: std::marker::PhantomData<(&'a u8, &'b [u8; N])>, pub q: Box<T> }}
     fn need<X: darling::{tr}>() {{}}
     pub fn instantiate() {{
+        need::<G5>();
+        need::<G5<u8, 1, false>>();
+        need::<G6<'static, 'static, u32>>();
         need::<G0<u32, Opaque>>();
         need::<G1<'static, Inner, 3>>();
         need::<G2<u8, Opaque>>();
